@@ -186,10 +186,10 @@ func (au *audition) audit(ctx context.Context) (err error) {
 	// Initialize the auditors that depend on the mood and
 	// perhaps time.
 	au.logger.Logf(ctx, "at start")
-	if err := au.processMoodChange(ctx, true /*atBegin*/, false /*atEnd*/, 0, "clear"); err != nil {
-		return err
-	}
 
+	// The final round is due even when the first one fails: the
+	// auditors it has started must be stopped, and the collector
+	// must be told that the audition is over.
 	defer func() {
 		ctx = logtags.AddTag(ctx, "audit-end", nil)
 		au.logger.Logf(ctx, "at end")
@@ -199,6 +199,10 @@ func (au *audition) audit(ctx context.Context) (err error) {
 
 		err = combineErrors(au.signalCollectorTermination(ctx), err)
 	}()
+
+	if err := au.processMoodChange(ctx, true /*atBegin*/, false /*atEnd*/, 0, "clear"); err != nil {
+		return err
+	}
 
 	for {
 		select {
